@@ -114,6 +114,40 @@ def run(ctx):
                         "while a scan still finds it" % f.id.split("::")[-1], where=f.loc())
     ctx.floor("R3", n3, 1, "functions that move an entity between property-index buckets")
 
+    # ---- R5 adjacency reads cover every storage tier and skip deleted edges
+    AL = "grafeo_core::index::adjacency::AdjacencyList"
+    it = P.fn("AdjacencyList::iter")
+    acc = []
+    for g in P.family(it):
+        acc += E.own_acc(g)
+    for cell in ("cold_chunks", "hot_chunks", "delta_inserts", "deleted"):
+        ctx.ob("R5", "AdjacencyList::iter#%s" % cell, any(a.cell == (AL, cell) for a in acc),
+               what="AdjacencyList::iter does not read `%s`: neighbour lists and degrees miss live edges (or list deleted ones)" % cell,
+               where=it.loc())
+    filt_ok = any(callee_name(t).endswith("::contains") for g in P.family(it) if g.kind == "closure" for bi, t in g.calls()) and \
+        any((t["f"] or "").endswith("Iterator::filter") for bi, t in it.calls())
+    ctx.ob("R5", "AdjacencyList::iter#filters-deleted", filt_ok,
+           what="AdjacencyList::iter does not filter its entries through the `deleted` set", where=it.loc())
+    for nm in ("neighbors", "degree"):
+        f = P.fn("AdjacencyList::" + nm)
+        ctx.ob("R5", "AdjacencyList::%s#through-iter" % nm, it.id in P.reach([f]),
+               what="AdjacencyList::%s does not go through AdjacencyList::iter (tiers / deleted filter bypassed)" % nm, where=f.loc())
+    for nm in ("edges_from", "neighbors", "out_degree"):
+        f = P.fn("ChunkedAdjacency::" + nm)
+        ctx.ob("R5", "ChunkedAdjacency::%s#through-iter" % nm, it.id in P.reach([f]),
+               what="ChunkedAdjacency::%s does not go through AdjacencyList::iter (tiers / deleted filter bypassed)" % nm, where=f.loc())
+    # compaction moves entries, it never drops them: whatever is taken out of a tier is pushed into another
+    for nm, src, dsts in (("compact", "delta_inserts", ("hot_chunks",)), ("maybe_compress_to_cold", "hot_chunks", ("cold_chunks",)),
+                          ("freeze_all", "hot_chunks", ("cold_chunks",))):
+        f = P.fn("AdjacencyList::" + nm)
+        a2 = []
+        for g in P.family(f):
+            a2 += E.own_acc(g)
+        takes = any(a.cell == (AL, src) and E.is_write(a) for a in a2)
+        puts = all(any(a.cell == (AL, d) and E.is_write(a) and any(o.split("::")[-1] in ("push", "extend", "insert") for o in a.ops) for a in a2) for d in dsts)
+        ctx.ob("R5", "AdjacencyList::%s#moves" % nm, takes and puts,
+               what="AdjacencyList::%s takes entries out of `%s` without pushing them into %s" % (nm, src, dsts), where=f.loc())
+
     # ---- R2 counts and enumerators share one clock
     clocks = {}
     for m in ("node_count", "edge_count", "all_nodes", "all_edges", "node_ids"):
